@@ -843,11 +843,26 @@ class arlpackedbit(PseudoNetCDFFile):
             props['LEVEL_START'] = vhead['LEVEL'][0, 0]
             props['LEVEL_END'] = vhead['LEVEL'][-1, -1]
             vdata = unpack(bytes, v11, EXP)
-            out = PseudoNetCDFVariable(
-                self, varkey, 'f', ('time', 'z', 'y', 'x'),
-                values=vdata, units=stdunit,
-                standard_name=stdname, **props
-            )
+            if len(mylaykeys) != len(laykeys):
+                # a variable that only some levels carry (vertical velocity
+                # on the lower levels): missing on the other levels, so that
+                # the array has the length of z
+                from PseudoNetCDF import PseudoNetCDFMaskedVariable
+                full = np.ma.masked_all(
+                    (vdata.shape[0], len(laykeys)) + vdata.shape[2:],
+                    dtype=vdata.dtype)
+                full[:, [list(laykeys).index(lk) for lk in mylaykeys]] = vdata
+                out = PseudoNetCDFMaskedVariable(
+                    self, varkey, 'f', ('time', 'z', 'y', 'x'),
+                    values=full, units=stdunit,
+                    standard_name=stdname, **props
+                )
+            else:
+                out = PseudoNetCDFVariable(
+                    self, varkey, 'f', ('time', 'z', 'y', 'x'),
+                    values=vdata, units=stdunit,
+                    standard_name=stdname, **props
+                )
         if self._cache:
             self.variables[varkey] = out
         return out
